@@ -340,6 +340,22 @@ def run(ctx):
         if a["c"] == "Not": a = {"c": "Not", "arg": a["args"][0]}
         ctx.tags["named-sub-formula-next-to-its-negation"] += 1
         do_case(ctx, {"ast": a})
+    # an argument listed more than once: the connectives count their ARGUMENTS' truth values (Xor(a, a) has two arguments; both
+    # are true or both false, never exactly one) — formulas, not validated models
+    for _ in range(n // 10):
+        rng = ctx.rng
+        base = [{"c": "str", "id": x} for x in rng.sample("abc", rng.randint(1, 2))]
+        if rng.random() < 0.4:
+            base[0] = {"c": rng.choice(["Any", "All"]), "args": [{"c": "str", "id": "p"}, {"c": "str", "id": "q"}], "id": "G"}
+        args = base + [rng.choice(base)]
+        rng.shuffle(args)
+        c = rng.choice(["XNor", "XNor", "Xor", "ExactlyOne", "Any", "AtLeast", "AtMost"])
+        a = {"c": c, "args": args}
+        if c in ("AtLeast", "AtMost"): a["v"] = rng.randint(1, len(args))
+        if rng.random() < 0.3: a = {"c": rng.choice(["Not", "Any"]), **({"arg": a} if False else {}), "args": [a, {"c": "str", "id": "w"}]}
+        if a["c"] == "Not": a = {"c": "Not", "arg": a["args"][0]}
+        ctx.tags["argument-listed-more-than-once"] += 1
+        do_case(ctx, {"ast": a})
     for _ in range(n // 2):
         do_case(ctx, {"cic": gen_cic(ctx.rng), "mode": ctx.rng.choice(["default", "default", "str", "ident", "var"])})
     if not ctx.quick and not ctx.search:
